@@ -53,7 +53,7 @@ def run(ctx):
         title = rng.choice(["", "", "My title"])
         labels = ["lab%d" % i for i in range(nd)] if rng.random() < 0.4 else []
         hasrange = int(rng.random() < 0.25)
-        rngticks = [-2, 30, -4, 40]
+        rngticks = [-2, 30, -4, 40] if rng.random() < 0.5 else [1, 7, 1, 7]      # a range covering the data, or a zoomed view that cuts finite points off
         f32 = rng.random() < 0.4
         rep = (not po) and rng.random() < 0.25
         if rep:
